@@ -184,5 +184,6 @@ def size_thresholds(relpaths, lo=24, hi=1 << 15):
             elif isinstance(n, ast.Call) and getattr(n.func, "id", getattr(n.func, "attr", "")) in ("range", "split", "chunk", "narrow"):
                 vals = lits(n)
             for v in vals:
-                out.setdefault(v, []).append(f"{rel}:{n.lineno}")
+                if f"{rel}:{n.lineno}" not in out.setdefault(v, []):
+                    out[v].append(f"{rel}:{n.lineno}")
     return out
